@@ -3,8 +3,8 @@
    LabelJson.v (label sets), SeriesIndex.v (request histories), Dates.v (days and time zones). *)
 From Coq Require Import List ZArith Bool String Permutation.
 From Qryn Require Import model.GoQuote model.LabelJson model.Fingerprint model.Labels
-  model.SeriesIndex model.ConfirmRule model.SharedInsert model.FlushRule model.Dates model.CacheKey model.GoJson model.DdTags model.ProtoLabels model.SeriesDoc model.TwoReaders
-  proofs.FingerprintProofs proofs.FingerprintInjProofs proofs.LabelsProofs proofs.JsonQuoteProofs proofs.LabelDocReaderProofs proofs.TwoReadersProofs proofs.ProtoLabelsProofs proofs.GoJsonProofs proofs.DdTagsProofs proofs.ProtoGuardProofs proofs.SeriesIndexProofs proofs.ConfirmRuleProofs proofs.SharedInsertProofs proofs.FlushRuleProofs proofs.DiscoverProofs proofs.DiscoverWindowProofs proofs.DatesProofs proofs.CacheKeyProofs.
+  model.SeriesIndex model.ConfirmRule model.SharedInsert model.FlushRule model.Dates model.CacheKey model.SeriesNodes model.GoJson model.DdTags model.ProtoLabels model.SeriesDoc model.TwoReaders
+  proofs.FingerprintProofs proofs.FingerprintInjProofs proofs.LabelsProofs proofs.JsonQuoteProofs proofs.LabelDocReaderProofs proofs.TwoReadersProofs proofs.ProtoLabelsProofs proofs.GoJsonProofs proofs.DdTagsProofs proofs.ProtoGuardProofs proofs.SeriesIndexProofs proofs.ConfirmRuleProofs proofs.SharedInsertProofs proofs.FlushRuleProofs proofs.DiscoverProofs proofs.DiscoverWindowProofs proofs.DatesProofs proofs.CacheKeyProofs proofs.SeriesNodesProofs.
 From Qryn Require model.Scans model.LogqlPlan model.SqlEval.
 Import ListNotations.
 Open Scope Z_scope.
@@ -480,6 +480,57 @@ Theorem cache_key_by_database_name_refuted : exists n m,
   n_node n <> n_node m /\ (forall k, view_key_by_db n k = view_key_by_db m k) /\ view_key_code n 7 <> view_key_code m 7.
 Proof. exact (ex_intro _ ex_ch1 (ex_intro _ ex_ch2 view_key_by_db_collides)). Qed.
 Print Assumptions cache_key_by_database_name_refuted.
+
+(* ROUND 8. The writer process with SEVERAL ClickHouse nodes (model/SeriesNodes.v): one shared announcement cache whose
+   entries carry the prefix of the node's view, and per node name its own time_series table, acknowledged samples and
+   requests in flight; a history names for every action the node it is sent to (X-CH-DSN), the ticker empties the one cache.
+   For EVERY prefix function that tells nodes apart exactly as their names do, every history (all actions of the single-node
+   model: insert failures, overlapping and chunked requests, evictions - on any node, interleaved in any order) and every
+   node: what the node sees in the product IS the state of the single-node model run on the node's own actions and the resets
+   (the projection the check uses to judge two-node histories is a theorem, not an argument) ... *)
+Theorem nodes_behave_like_single_node_model : forall pfx,
+  (forall m n, pfx m = pfx n <-> n_node m = n_node n) ->
+  forall h n, nview pfx (mrun pfx minit h) n = run init (proj (n_node n) h) /\
+              proj_obs (n_node n) h (mrun_obs pfx minit h) = run_obs init (proj (n_node n) h).
+Proof. exact (fun pfx H h n => conj (nodes_are_independent pfx H h n) (nodes_obs_independent pfx H h n)). Qed.
+Print Assumptions nodes_behave_like_single_node_model.
+
+(* ... so the property holds NODE BY NODE: every sample acknowledged on a node has a series row of its day and type
+   inserted ON THAT NODE (where the reader of that node looks), and the node's view of the shared cache holds only triples
+   whose row is in that node's table. Hypothesis met: the code's prefix is the node name (next theorem);
+   SeriesNodesProofs.two_nodes_code_both_rows is a non-trivial history. *)
+Theorem acked_sample_is_indexed_on_its_node : forall pfx,
+  (forall m n, pfx m = pfx n <-> n_node m = n_node n) ->
+  forall h n, all_indexed_typed (nview pfx (mrun pfx minit h) n) = true /\
+              incl (cview (pfx n) (m_cache (mrun pfx minit h))) (ts_rows (m_st (mrun pfx minit h) (n_node n))).
+Proof. exact (fun pfx H h n => conj (nodes_all_indexed pfx H h n) (nodes_cache_covered pfx H h n)). Qed.
+Print Assumptions acked_sample_is_indexed_on_its_node.
+
+(* the code (numbercache.Cache.DB: prefix = node name), without any hypothesis *)
+Theorem acked_sample_is_indexed_on_its_node_for_the_code : forall h n,
+  all_indexed_typed (nview n_node (mrun n_node minit h) n) = true /\
+  nview n_node (mrun n_node minit h) n = run init (proj (n_node n) h).
+Proof. exact (fun h n => conj (nodes_all_indexed_code h n) (nodes_are_independent_code h n)). Qed.
+Print Assumptions acked_sample_is_indexed_on_its_node_for_the_code.
+
+(* the prefix by DATABASE name (seeded C04-g) does not meet the hypothesis and the conclusion fails: ch1, ch2 with database
+   qryn, the series pushed to ch2 then to ch1: the sample on ch1 is acknowledged, ch1's table stays empty *)
+Theorem acked_sample_is_indexed_on_its_node_refuted_for_database_prefix :
+  ~ (forall m n, n_db m = n_db n <-> n_node m = n_node n) /\
+  exists h n, all_indexed_typed (nview n_db (mrun n_db minit h) n) = false.
+Proof. exact (conj db_prefix_does_not_separate db_prefix_refuted). Qed.
+Print Assumptions acked_sample_is_indexed_on_its_node_refuted_for_database_prefix.
+
+(* the tagged entries of the product model ARE the byte keys of the one fastcache: a lookup of  prefix ++ ser_le8 (key x)
+   among the byte keys hits exactly when the view of that prefix holds x - on every universe U of announcements on which the
+   key hash is injective with 64-bit values (the CH64 collision-freeness hypothesis of announcement_cache_refines; met:
+   SeriesNodesProofs.byte_view_hypotheses_met), for ARBITRARY prefixes (one may be a prefix of another) *)
+Theorem shared_cache_view_is_byte_lookup : forall key (U : row -> Prop),
+  (forall x, U x -> 0 <= key x < 2 ^ 64) -> (forall x y, U x -> U y -> key x = key y -> x = y) ->
+  forall p x c, U x -> Forall (fun e => U (snd e)) c ->
+  existsb (String.eqb (node_key p (key x))) (map (byte_key key) c) = mem_row x (cview p c).
+Proof. exact byte_view_is_tagged_view. Qed.
+Print Assumptions shared_cache_view_is_byte_lookup.
 
 (* ... and it is what makes the triple-keyed cache of SeriesIndex.v the right abstraction: for every
    key hash and serializer whose composition is injective on announcements (the hash part is a
